@@ -7,11 +7,22 @@
                    then queries and listings through db.DB and storage.Client;
                    both the direct model (db_query / list_uploads) and the
                    relational evaluation of the generated SQL (Model/Sql.v)
-                   are compared with what SQLite returned
+                   are compared with what SQLite returned. The listing counts
+                   are JUDGED by the rule (Model/RecordRuns.v spec_records: one
+                   record per maximal run of consecutive results with identical
+                   labels), not by the model of the code.
+      3  history, amended : the same payload as a kind-2 case whose input the
+                   harness tagged C19_record_split_at_flush (a forced flush
+                   falls on the first result of a run that has a follower — the
+                   recorded finding); the listing counts are judged by the rule
+                   amended by exactly that deviation (the records of the insert
+                   model, which Proofs/RecordRuns.v shows to be the rule's
+                   wherever no such flush occurs), so that any OTHER deviation
+                   on such an input is still a violation
     Domain on which the model is tied to the code: lines shorter than
     bufio.Scanner's 64 KiB token limit; cased letters only from ASCII, Latin-1,
     basic Greek and basic Cyrillic (Model/Words.v). *)
-From Perf Require Import Base.Bytes Base.Sx Model.Words Model.Query Model.StoreFmt Model.Sql.
+From Perf Require Import Base.Bytes Base.Sx Model.Words Model.Query Model.StoreFmt Model.Sql Model.RecordRuns.
 
 Definition blist_eqb := list_eqb beq.
 
@@ -239,16 +250,20 @@ Definition all_labels (r : result) : labels := r_labels r ++ r_namelabels r.
 
 (** what the successful uploads should have stored, by the format's rules:
     every benchmark line of every file with the labels in effect there *)
-Fixpoint files_results (u : upload_in) (i : N) (fs : list ufile) : list result :=
-  match fs with
-  | [] => []
-  | f :: fs' => read_with (file_meta u i f) (f_body f) ++ files_results u (i + 1) fs'
-  end.
 Definition expected_all (us : list ucase) : list result :=
-  flat_map (fun u => if uc_ok u then files_results (uc_in u) 0 (u_files (uc_in u)) else []) us.
+  flat_map (fun u => if uc_ok u then upload_results (uc_in u) 0 (u_files (uc_in u)) else []) us.
 
-(** stored records per upload by the coalescing rule, newest first *)
-Definition expected_uploads (us : list ucase) : list (bytes * list rec) :=
+(** stored records per accepted upload BY THE RULE, newest first: one record
+    per maximal run of consecutive results with identical labels and name
+    labels (Model/RecordRuns.v) — independent of the database layer's batching *)
+Definition spec_uploads (us : list ucase) : list (bytes * list rec) :=
+  rev (flat_map (fun u => if uc_ok u then [(u_id (uc_in u), spec_upload_records (uc_in u))] else []) us).
+
+(** the rule amended by the recorded finding C19_record_split_at_flush: the
+    records of the insert model (a run is cut after its first result when the
+    flush forced by the 990-argument limit falls on that result); used for
+    kind 3 only *)
+Definition amended_uploads (us : list ucase) : list (bytes * list rec) :=
   rev (flat_map (fun u => if uc_ok u then
                             match process_upload (uc_in u) with
                             | inl recs => [(u_id (uc_in u), recs)]
@@ -286,7 +301,11 @@ Definition prop_q (all : list result) (exp : list (bytes * list rec)) (c : qcase
 
 Definition prop_h (c : hcase) : bool :=
   mset_eqb res_eqb (h_all c) (expected_all (h_uploads c))
-  && forallb (prop_q (h_all c) (expected_uploads (h_uploads c))) (h_queries c).
+  && forallb (prop_q (h_all c) (spec_uploads (h_uploads c))) (h_queries c).
+
+Definition prop_h_amended (c : hcase) : bool :=
+  mset_eqb res_eqb (h_all c) (expected_all (h_uploads c))
+  && forallb (prop_q (h_all c) (amended_uploads (h_uploads c))) (h_queries c).
 
 (** ** entry point *)
 Definition run_case (s : sx) : N :=
@@ -294,5 +313,6 @@ Definition run_case (s : sx) : N :=
   | SL (SZ 0 :: l) => match decode_w l with Some c => code_of (corr_w c) (prop_w c) | None => code_undecodable end
   | SL (SZ 1 :: l) => match decode_f l with Some c => code_of (corr_f c) (prop_f c) | None => code_undecodable end
   | SL (SZ 2 :: l) => match decode_h l with Some c => code_of (corr_h c) (prop_h c) | None => code_undecodable end
+  | SL (SZ 3 :: l) => match decode_h l with Some c => code_of (corr_h c) (prop_h_amended c) | None => code_undecodable end
   | _ => code_undecodable
   end.
